@@ -292,7 +292,17 @@ func (v *Verifier) globalObj(st *State, g *ssa.Global) (*Object, bool) {
 	v.globals[g] = nil
 	t := g.Type().Underlying().(*types.Pointer).Elem()
 	if v.isAbstract(t) {
-		return nil, false
+		if g.Pkg == nil || v.globalWrittenOutsideInit(g) {
+			return nil, false
+		}
+		o := v.newObject(g.Name(), t, true)
+		o.Global = true
+		val := v.F.Var("glob."+g.Pkg.Pkg.Name()+"."+g.Name(), SInt)
+		v.globals[g] = o
+		v.globalInit[g] = val
+		st.mem[o] = val
+		v.assume("package-level ring constant " + g.Pkg.Pkg.Name() + "." + g.Name() + " is a fixed element (only the package initialiser stores to it: checked syntactically); its numeric value is not checked at the ring layer")
+		return o, true
 	}
 	// only arrays/structs of integers
 	val, ok := v.tryZero(t)
